@@ -7,12 +7,14 @@ pub mod c08;
 pub mod c09;
 pub mod c10;
 pub mod c11;
+pub mod c12;
 pub mod c14;
+pub mod c17;
 
 use crate::engine::Property;
 
 pub fn all_ids() -> Vec<&'static str> {
-    vec!["C01", "C02", "C03", "C04", "C05", "C08", "C09", "C10", "C11", "C14"]
+    vec!["C01", "C02", "C03", "C04", "C05", "C08", "C09", "C10", "C11", "C12", "C14", "C17"]
 }
 
 pub fn get(id: &str) -> Option<Property> {
@@ -26,7 +28,9 @@ pub fn get(id: &str) -> Option<Property> {
         "C09" => Some(c09::property()),
         "C10" => Some(c10::property()),
         "C11" => Some(c11::property()),
+        "C12" => Some(c12::property()),
         "C14" => Some(c14::property()),
+        "C17" => Some(c17::property()),
         _ => None,
     }
 }
